@@ -39,13 +39,25 @@ class C09Plan(Plan):
         },
     }
 
+    # long histories: hundreds of operations on a handful of objects, so that per-object or per-process
+    # thresholds (a counter, an eviction limit, "after the 100th call take the fast path") are crossed
+    LONG_EVERY = 100
+    LONG_BASE = {"n_steps": (120, 320), "n_nodes": (5, 14), "max_depth": (2, 4), "max_size": 80,
+                 "n_points": (3, 5)}
+
     def gen(self, rng, tier, index):
         base = None
         if index % (5000 if tier == "quick" else 2000) == 17:
             return gen.gen_giveup(rng)          # natural rewrite-budget exhaustion (GIVEUP fault)
         if tier == "thorough" and index % 7 == 3:
             base = {"n_steps": (25, 60), "n_nodes": (10, 40)}
+        if index % self.LONG_EVERY == 29:
+            base = self.LONG_BASE                # a long history on a small world ("sequences of any length")
+        if index % self.LONG_EVERY == 61:
+            base = gen.BIG_BASE                  # wide, deep, many-variable worlds
         scn = gen.gen_scenario(rng, base)
+        if base is self.LONG_BASE and index % (2 * self.LONG_EVERY) == 29:
+            gen.hammer(rng, scn)
         if index % self.SESSION_EVERY == 53:
             # a long session: SESSION_LEN unrelated scenarios executed first in the same pristine process,
             # then this one, whose every step is compared with a reference from a process that ran nothing
@@ -100,7 +112,15 @@ class C10Plan(Plan):
         },
     }
 
+    LONG_EVERY = 150
+    LONG_BASE = dict(BASE, n_steps=(80, 160), n_nodes=(5, 12), max_depth=(2, 4), max_size=60)
+
     def gen(self, rng, tier, index):
+        if index % self.LONG_EVERY == 61:
+            return gen.gen_scenario(rng, dict(self.BASE, **gen.BIG_BASE))   # wide, deep, many-variable worlds
+        if index % self.LONG_EVERY == 29:
+            scn = gen.gen_scenario(rng, self.LONG_BASE)    # a long history on a small world
+            return gen.hammer(rng, scn) if index % (2 * self.LONG_EVERY) == 29 else scn
         return gen.gen_scenario(rng, self.BASE)
 
     def nontrivial(self, run):
@@ -142,6 +162,12 @@ class C06Plan(Plan):
     def gen(self, rng, tier, index):
         if index % (50000 if tier == "quick" else 20000) == 17:
             return gen.gen_giveup(rng)          # route agreement after the rewriter gave up (side coverage)
+        if index % 200 == 61:
+            return gen.gen_c06(rng, dict(gen.BIG_BASE, n_ord=(3, 6), max_size=120, n_nodes=(20, 50), n_steps=(10, 36)))
+        if index % 200 == 29:
+            # a long life-cycle: the same few route objects queried hundreds of times
+            scn = gen.gen_c06(rng, {"n_steps": (150, 400)})
+            return gen.hammer(rng, scn)
         return gen.gen_c06(rng)
 
     def posthoc(self, run):
